@@ -36,24 +36,31 @@ def in_union(x, pairs):
 
 
 def coverage_ok(pairs, out):
-    """pairs, out in ns. x in output => x in closed union of inputs (s<e); x in union and farther than 1us from
-    every input endpoint => x in output."""
+    """pairs, out in ns.  Exact reading of the coverage clause: x in output => x in the closed union of the inputs (s<e); x in the
+    union and not in the output is allowed only in the microsecond before the start s of a real input (s, c), c > s, that the union does
+    not run across (every input holding x ends at or before s): the touch separation.  Returns (message, finding_ctx)."""
     pts = sorted(set(itertools.chain.from_iterable(pairs)))
     probes = set()
     for p in pts:
-        probes.update([p, p - 1001, p + 1001, p - 1, p + 1])
+        probes.update([p, p - 1001, p + 1001, p - 1, p + 1, p - 500, p - 1000, p - 999])
     for a, b in zip(pts, pts[1:]):
         probes.add((a + b) // 2)
     for s, e in out:
         probes.update([s, e, s + 1, e - 1])
-    for x in probes:
+    real = [(a, b) for a, b in pairs if a < b]
+    for x in sorted(probes):
         o = any(s <= x <= e for s, e in out)
         u = in_union(x, pairs)
         if o and not u:
-            return "x=%d in output but not in the union of the inputs" % x
-        if u and not o and all(abs(x - p) > 1000 for p in pts):
-            return "x=%d in the union of the inputs (not within 1us of an endpoint) but not in output" % x
-    return None
+            return "x=%d in output but not in the union of the inputs" % x, None
+        if u and not o:
+            holders = [(a, b) for a, b in real if a <= x <= b]
+            legit = any(s - 1000 <= x < s and c > s and all(b <= s for _, b in holders) for s, c in real)
+            if not legit:
+                zl = [z for z, z2 in pairs if z == z2 and z - 1000 <= x <= z and any(a < z <= b for a, b in holders)]
+                return ("x=%d in the union of the inputs (and not in a microsecond removed by the touch separation) but not in output" % x,
+                        dict(op="constructor", zero_length_inside=bool(zl)))
+    return None, None
 
 
 def build(form, unit, pairs_ns, rng):
@@ -91,20 +98,28 @@ def ctor_cases(ctx, cases):
     for n, (pairs, form, unit) in enumerate(cases):
         inp = dict(level="ctor", pairs_ns=pairs, form=form, unit=unit)
         ctx.case(("c", tuple(sorted(pairs))), inp if n % 3001 == 7 else None)
+        flag = (n % 4 == 3)       # the flags of nap_config silence warnings, nothing else: every fourth case runs with them on
+        cfg = nap.nap_config
+        old_flags = (cfg.suppress_time_index_sorting_warnings, cfg.suppress_conversion_warnings)
         try:
+            if flag:
+                cfg.suppress_time_index_sorting_warnings = True; cfg.suppress_conversion_warnings = True
+                inp = dict(inp, suppress_flags=True)
             ep = build(form, unit, pairs, ctx.rng)
         except Exception as e:
             ctx.fail("oracle", "constructor raised %r" % (e,), inp)
             continue
+        finally:
+            cfg.suppress_time_index_sorting_warnings, cfg.suppress_conversion_warnings = old_flags
         st, en = iset_ns(ep)
         got = list(zip(st, en))
         ctx.count("out_len=%d" % min(len(got), 4))
         if not is_canonical_ns(st, en):
             ctx.fail("oracle", "IntervalSet not canonical", inp, impl=got)
         if all(s <= e for s, e in pairs):
-            msg = coverage_ok(pairs, got)
+            msg, fc = coverage_ok(pairs, got)
             if msg:
-                ctx.fail("oracle", "coverage: " + msg, inp, impl=got)
+                ctx.fail("oracle", "coverage: " + msg, inp, impl=got, finding_ctx=fc)
         if out is not None and form != "iset":
             m = [] if out[n] == "-" else [tuple(int(v) for v in p.split(":")) for p in out[n].split(",")]
             if m != got:
